@@ -130,6 +130,18 @@ func scenarioOf(c *vkit.Ctx, cb Combo, idx int) e2e.Scenario {
 var hookOn atomic.Bool
 
 func childMain(c *vkit.Ctx) {
+	// the second clause is re-run (at most three attempts) when the agent itself reported that one of its safety timeouts
+	// expired: after that it has given something up by design, and a stalled machine is the environment, not the agent
+	for attempt := 1; attempt <= 3; attempt++ {
+		if !runCombo(c, attempt) {
+			return
+		}
+		c.Event("attempts_set_aside_after_safety_timeout_expiry", 1)
+	}
+}
+
+// runCombo runs one combination; true = set aside, run again.
+func runCombo(c *vkit.Ctx, attempt int) (again bool) {
 	idx, _ := strconv.Atoi(c.Arg("idx"))
 	var cb Combo
 	if only := c.Arg("only"); only != "" {
@@ -269,6 +281,10 @@ func childMain(c *vkit.Ctx) {
 	c.Event("records_checked", nexp)
 	dropped := vkit.Sum(g0.Metrics, "buffer_dropped_chunks_total", nil)
 	if len(missing) > 0 && dropped == 0 {
+		if exp := e2e.SafetyExpired(obs); len(exp) > 0 && attempt < 3 {
+			c.Sample(map[string]any{"combo": cb, "set_aside": exp})
+			return true
+		}
 		ex := missing
 		if len(ex) > 8 {
 			ex = ex[:8]
@@ -280,6 +296,7 @@ func childMain(c *vkit.Ctx) {
 		c.Sample(map[string]any{"combo": cb, "stop_ms": ms, "input_stop_ms": int(g0.InputStop / time.Millisecond), "bound_ms": int(bound / time.Millisecond),
 			"client_phase_at_stop": clientPhase, "unacked_chunks_at_stop": unacked, "upstream_connections": conns, "records": nexp})
 	}
+	return false
 }
 
 func min(a, b int) int {
